@@ -1,6 +1,6 @@
 \* C01 leg A quick, 3 replicas (nested iterator dd(dd(r1,r2),r3)): at most 2 samples per replica on a
 \* 4-point grid with gaps beyond the penalty (11^3 = 1 331 layouts + 11 identical), readers mixing
-\* Next with at most one Seek (3 targets)
+\* Next with at most one Seek (2 targets)
 SPECIFICATION Spec
 CONSTANTS InitPen = 5
           Grid = {0, 1, 6, 11}
@@ -9,7 +9,7 @@ CONSTANTS InitPen = 5
           Ctr = FALSE
           Starts = {0}
           Incs = {0}
-          Targets = {0, 6, 12}
+          Targets = {5, 11}
           EmitMod = 1
           MaxSeeks = 1
           Kinds = {"f"}
